@@ -60,22 +60,59 @@ metadynamics {
   hillWidth 1.0
 }
 """
-CONFIGS = {"base": CONFIG, "grid": CONFIG_GRID}
+# a third one: the biases whose state formats were repaired in round 2 by the C03 slice (ALB, OPES)
+CONFIG_EXTRA = """colvar {
+  name d
+  lowerBoundary 0.0
+  upperBoundary 4.0
+  width 1.0
+  distanceZ {
+    main { atomNumbers 1 }
+    ref { dummyAtom (0,0,0) }
+    axis (0,0,1)
+  }
+}
+alb {
+  name al
+  colvars d
+  centers 1.0
+  updateFrequency 4
+}
+opes_metad {
+  name op
+  colvars d
+  barrier 10.0
+  newHillFrequency 1
+  gaussianSigma 0.5
+}
+"""
+CONFIGS = {"base": CONFIG, "grid": CONFIG_GRID, "extra": CONFIG_EXTRA}
+PRELUDE = {"extra": ["temperature 300"]}
 
 
 def scenario(sess, name=NAME, distinct=False):
     """sess = {"first": step number to start from, "pre": steps before the first save, "saves": ["text"|"binary", ...]}"""
-    L = ["unbuffered", "natoms 2", "new", "config EOF"] + CONFIGS[sess.get("config", "base")].strip("\n").split("\n") + ["EOF",
+    L = ["unbuffered", "natoms 2"] + PRELUDE.get(sess.get("config", "base"), []) + ["new", "config EOF"] + CONFIGS[sess.get("config", "base")].strip("\n").split("\n") + ["EOF",
          "show cv 0 atomf 0 energy 0 bias 0", "setstep %d" % sess["first"], "pos 1 0 0 1.25"]
     L += ["step"] * sess["pre"]
     for i, mode in enumerate(sess["saves"]):
         L.append("step")
-        L.append("save %s %s" % (mode, ("ref%d.colvars.state" % i) if distinct else name))
+        fname = ("ref%d.colvars.state" % i) if distinct else name
+        if sess.get("writer") == "bias":
+            # colvarbias::write_state_prefix: the state of the metadynamics bias alone, to <prefix>.colvars.state
+            L.append("script cv bias m save %s" % fname[:-len(".colvars.state")])
+        else:
+            L.append("save %s %s" % (mode, fname))
     return "\n".join(L) + "\n"
 
 
-def load_scenario(prefix, config="base"):
-    L = ["natoms 2", "new", "config EOF"] + CONFIGS[config].strip("\n").split("\n") + ["EOF", "load %s" % prefix]
+def load_scenario(prefix, config="base", bias=False):
+    L = ["natoms 2"] + PRELUDE.get(config, []) + ["new", "config EOF"] + CONFIGS[config].strip("\n").split("\n") + ["EOF"]
+    if bias:
+        # colvarbias::read_state_prefix takes the file name itself when <prefix>.colvars.state is not there
+        L += ["script cv bias m load %s" % prefix]
+    else:
+        L += ["load %s" % prefix]
     return "\n".join(L) + "\n"
 
 
@@ -197,7 +234,8 @@ def run_session(vsim, d, sess, plan):
             inject.append("inject=%s:signal=SIGKILL:when=%d" % (r["sys"], r["occ"]))
     killed = rc < 0 or rc >= 128
     # the SAVE lines printed so far (the scenario makes stdout unbuffered, so they survive a kill)
-    pres = ["ok" if l.strip() == "SAVE err=ok" else "err" for l in out.split("\n") if l.startswith("SAVE err=")]
+    pres = ["ok" if (l.strip() == "SAVE err=ok" or l.startswith("SCRIPT err=ok")) else "err"
+            for l in out.split("\n") if l.startswith("SAVE err=") or l.startswith("SCRIPT err=")]
     res = None if killed else pres
     for f in ("s.scn", "trace.txt"):
         p = os.path.join(d.path, f)
@@ -285,6 +323,8 @@ def model_line(start_model, sessions):
         for i, c in enumerate(chunking):
             parts.append("s:%d:%s:%d" % (version_of(sess, i), ",".join(map(str, c["chunks"])) or "-", c["tail"]))
         parts.append("p:" + (",".join(plan) or "-"))
+    if any(sess.get("writer") == "bias" for sess, c, p in sessions):
+        parts.append("w:bias")
     return " ".join(parts)
 
 
@@ -326,12 +366,15 @@ def complete_versions(files, refs_by_ver):
     return out
 
 
-def try_load_(vsim, d, fname, config="base"):
+def try_load_(vsim, d, fname, config="base", bias=False):
     scn = os.path.join(d.path, "l.scn")
-    open(scn, "w").write(load_scenario(fname, config))
+    open(scn, "w").write(load_scenario(fname, config, bias))
     rc, out, err = V.sh(["timeout", "-s", "KILL", "20", vsim, scn], cwd=d.path, timeout=60,
                         env={"ASAN_OPTIONS": "abort_on_error=1:detect_leaks=0", "UBSAN_OPTIONS": "halt_on_error=1:abort_on_error=1"})
     os.remove(scn)
+    if bias:
+        m = re.search(r"SCRIPT err=(\S+)", out)
+        return rc, (m.group(1), None) if m else None
     m = re.search(r"LOAD err=(\S+) it=(-?\d+)", out)
     return rc, (m.group(1), int(m.group(2))) if m else None
 
@@ -423,6 +466,20 @@ def run_case(run, model, vsim, d, case, quick):
                     if mtmp != "-":
                         v_, b_, t_ = map(int, mtmp.split("."))
                         mfs = mfs.replace("tmp:" + mtmp, "tmp:%d.%d.%d" % (v_, b_ + int(ex.group(1)), t_))
+        if sess.get("writer") == "bias" and "e" in plan:
+            # after a failed write the stream is closed all the same: the filebuf first tries to write what it still holds
+            # (outside the model: it only moves the byte count of the temporary file of the failed save)
+            mt, it_ = mm.group(2).split(","), itrace.split(",")
+            for j in range(len(it_)):
+                if j < len(mt) and mt[j] == "C" and it_[j].startswith("W") and j + 1 < len(it_) and it_[j + 1] == "C" and it_[:j] == mt[:j]:
+                    extra = int(it_[j][1:])
+                    itrace = ",".join(it_[:j] + it_[j + 1:])
+                    if it_[j + 2:j + 3] == [] or True:
+                        mtmp = dict(x.split(":") for x in mfs.split())["tmp"]
+                        if mtmp != "-" and obs["tmp"] != "-" and obs["tmp"][0] != int(mtmp.split(".")[1]):
+                            v_, b_, t_ = map(int, mtmp.split("."))
+                            mfs = mfs.replace("tmp:" + mtmp, "tmp:%d.%d.%d" % (v_, obs["tmp"][0], t_))
+                    break
         cur_model = dict(x.split(":") for x in mfs.split())
         same = (itrace == mm.group(2)) and match_model(obs, mfs, refs_by_ver)
         if res is None:
@@ -443,7 +500,12 @@ def run_case(run, model, vsim, d, case, quick):
     loadable = []
     for k, n in (("cur", NAME), ("old", NAME + ".old")):
         if files[k] is not None:
-            rc, ld = try_load(vsim, d, n, run, case["label"])
+            if any(s_.get("writer") == "bias" for s_, p_ in sessions):
+                rc, ld = try_load_(vsim, d, n, "base", True)
+                if ld and ld[0] == "ok":
+                    ld = ("ok", ([v for kk, v in comp if kk == k] + [None])[0])
+            else:
+                rc, ld = try_load(vsim, d, n, run, case["label"])
             if rc >= 128 or rc == 124 or rc < 0:
                 run.violation("load.crash", "loading %s left by the fault plan %s kills the process (rc=%d)" % (n, case["label"], rc),
                               {"kind": "crash", "case": case, "file": n})
@@ -623,6 +685,19 @@ def run_crash(run, model, vsim, quick):
     for k in (12, 13, 14):
         for f in ("e", "k0"):
             cases.append({"kind": "install-fault", "label": "small:install:%s@%d" % (f, k), "sessions": [(s123, ["o"] * k + [f])]})
+    # 3b. the writer of a single bias's state file (cv bias m save): death and an error return at every call
+    bsmall = {"first": 0, "pre": 3, "saves": ["text", "text", "text"], "writer": "bias"}
+    blarge = {"first": 0, "pre": 300, "saves": ["text", "text"], "writer": "bias"}
+    for label, sess in (("bias-small", bsmall), ("bias-large", blarge)):
+        refs, chunking, rel = reference(vsim, d, sess)
+        n = len(rel)
+        run.sample({"fault_free_trace_" + label: trace_str(rel), "state_sizes": [len(x) for x in refs]})
+        ks = list(range(n)) if not quick else sorted(r.sample(range(n), min(n, 7)))
+        for k in ks:
+            cases.append({"kind": "bias-writer-kill", "label": "%s:kill@%d" % (label, k), "sessions": [(sess, ["o"] * k + ["k0"])]})
+            cases.append({"kind": "bias-writer-error", "label": "%s:err@%d" % (label, k), "sessions": [(sess, ["o"] * k + ["e"])]})
+    cases.append({"kind": "bias-writer-two-processes", "label": "bias:kill-in-the-write-of-save-2,restart,kill-between-the-two-renames",
+                  "sessions": [(bsmall, ["o"] * 10 + ["k0"]), ({"first": 1000, "pre": 2, "saves": ["text"], "writer": "bias"}, ["o"] * 7 + ["k0"])]})
     # 4. random two-fault plans over two processes
     for j in range(8 if quick else 100):
         p1 = ["o"] * r.randint(4, 22) + [r.choice(["k0", "e"])]
@@ -699,6 +774,10 @@ def tx_line(text, config="base"):
     if config == "base":
         cfg = "cv:%d b:%d.%d.%d.0,%d.%d.%d.1" % (wid("d"), wid("restraint"), wid("harmonic"), wid("h"),
                                                    wid("metadynamics"), wid("metadynamics"), wid("m"))
+    elif config == "extra":
+        # ALB: configuration only; OPES: key opes_metad_<name>, nine keyword/value pairs, the block hills { kernels }
+        cfg = "cv:%d b:%d.%d.%d.0,%d.%d.%d.0.k%d+w18+b%d" % (
+            wid("d"), wid("alb"), wid("alb"), wid("al"), wid("opes_metad"), wid("opes_metad"), wid("op"), wid("opes_metad_op"), wid("hills"))
     else:
         # 4 bins: histogram = key "grid" + 4 numbers; metadynamics = two grids (key, grid_parameters block, 4 numbers), then hills
         gp = wid("grid_parameters")
@@ -717,21 +796,28 @@ def tb_line(data):
 
 
 def run_damage_grid(run, vsim, d, quick, model):
-    """prefixes of a text state whose biases hold grids (histogram; metadynamics with grids): cut inside an object's
-    block must be an error (oracle), and the text-reader model with the grid layouts gives the same verdict (tie)"""
-    r = V.rng("C11damagegrid")
-    sess = {"first": 0, "pre": 6, "saves": ["text"], "config": "grid"}
+    for cfgname in ("grid", "extra"):
+        run_damage_config(run, vsim, d, quick, model, cfgname)
+
+
+def run_damage_config(run, vsim, d, quick, model, cfgname):
+    """prefixes of a text state whose biases hold grids (histogram; metadynamics with grids) resp. ALB and OPES data: a cut
+    inside an object's block must be an error (oracle), and the text-reader model with the layouts gives the same verdict
+    (tie); prefixes of the binary state: no crash, and an accepted proper prefix is reported (search only)"""
+    r = V.rng("C11damage" + cfgname)
+    sess = {"first": 0, "pre": 6, "saves": ["text", "binary"], "config": cfgname}
     refs, chunking, rel = reference(vsim, d, sess)
     text = refs[0]
+    binary = refs[1]
     n = len(text)
     p = os.path.join(d.path, "dmg.colvars.state")
     blocks = top_level_blocks(text.decode("latin1"))
     obj_blocks = [(a, b, kw) for a, b, kw in blocks if kw != "configuration"]
     open(p, "wb").write(text)
-    rc, ld = try_load_(vsim, d, "dmg.colvars.state", "grid")
+    rc, ld = try_load_(vsim, d, "dmg.colvars.state", cfgname)
     if rc != 0 or not ld or ld[0] != "ok":
         run.violation("load.valid-state-rejected", "a freshly written text state with grids does not load (rc=%d, %s)" % (rc, ld),
-                      {"kind": "load", "format": "text", "config": "grid", "cut": n})
+                      {"kind": "load", "format": "text", "config": cfgname, "cut": n})
         return
     if quick:
         offs = set(r.sample(range(n), min(n, 90)))
@@ -744,27 +830,47 @@ def run_damage_grid(run, vsim, d, quick, model):
     verdicts = []
     for cut in sorted(o for o in offs if 0 <= o < n):
         open(p, "wb").write(text[:cut])
-        rc, ld = try_load_(vsim, d, "dmg.colvars.state", "grid")
-        run.count("gridtext-prefix-%d" % cut, True)
-        run.dist("damage:text-prefix(grids)")
+        rc, ld = try_load_(vsim, d, "dmg.colvars.state", cfgname)
+        run.count("%s-text-prefix-%d" % (cfgname, cut), True)
+        run.dist("damage:text-prefix(%s)" % cfgname)
         if rc >= 128 or rc == 124 or rc < 0 or ld is None:
             run.violation("load.crash:text-prefix", "loading the first %d of %d bytes of a valid text state with grids kills or hangs the process (rc=%d)" % (cut, n, rc),
-                          {"kind": "load", "format": "text", "config": "grid", "cut": cut})
+                          {"kind": "load", "format": "text", "config": cfgname, "cut": cut})
             continue
         verdicts.append((cut, "ok" if ld[0] == "ok" else "err"))
         inside = [kw for a, b, kw in obj_blocks if a < cut <= b]
         if inside and ld[0] == "ok":
             run.violation("load.text-cut-inside-%s-block-accepted" % inside[0],
                           "a text state with grids cut at byte %d, inside the %s block, loads without any error" % (cut, inside[0]),
-                          {"kind": "load", "format": "text", "config": "grid", "cut": cut})
-    lines = [tx_line(text[:cut].decode("latin1"), "grid") for cut, _ in verdicts]
+                          {"kind": "load", "format": "text", "config": cfgname, "cut": cut})
+    lines = [tx_line(text[:cut].decode("latin1"), cfgname) for cut, _ in verdicts]
     rcm, mout, em = V.run_lines(model, lines, timeout=600)
     ndis = 0
     for (cut, verdict), mo in zip(verdicts, mout + ["<none>"] * (len(lines) - len(mout))):
         if mo.strip() != verdict:
             ndis += 1
-            run.mismatch("text-reader-tie", {"config": "grid", "cut": cut, "of": n, "tail": text[max(0, cut - 30):cut].decode("latin1")}, verdict, mo.strip())
-    run.cov["correspondence"]["damage_grid"] = {"text_prefixes": len(verdicts), "text_reader_model_disagreements": ndis}
+            run.mismatch("text-reader-tie", {"config": cfgname, "cut": cut, "of": n, "tail": text[max(0, cut - 30):cut].decode("latin1")}, verdict, mo.strip())
+    # binary prefixes of the same configuration: search only
+    nb = len(binary)
+    pat = struct.pack("<Q", 4) + b"hill"
+    hill_starts = [m.start() for m in re.finditer(re.escape(pat), binary)]
+    boffs = set(range(5, nb)) if not quick else (set(r.sample(range(5, nb), min(nb - 5, 60))) | set(range(max(5, nb - 16), nb)))
+    nacc = 0
+    for cut in sorted(boffs):
+        open(p, "wb").write(binary[:cut])
+        rc, ld = try_load_(vsim, d, "dmg.colvars.state", cfgname)
+        run.count("%s-binary-prefix-%d" % (cfgname, cut), True)
+        run.dist("damage:binary-prefix(%s)" % cfgname)
+        if rc >= 128 or rc == 124 or rc < 0 or ld is None:
+            run.violation("load.crash:binary-prefix", "loading the first %d of %d bytes of a valid binary state (%s configuration) kills or hangs the process (rc=%d)" % (cut, nb, cfgname, rc),
+                          {"kind": "load", "format": "binary", "config": cfgname, "cut": cut})
+        elif ld[0] == "ok":
+            nacc += 1
+            sig = "load.binary-prefix-accepted:at-hill-boundary" if cut in hill_starts else "load.binary-prefix-accepted:" + cfgname
+            run.violation(sig, "a binary state (%s configuration) cut at byte %d of %d loads without any error" % (cfgname, cut, nb),
+                          {"kind": "load", "format": "binary", "config": cfgname, "cut": cut})
+    run.cov["correspondence"]["damage_" + cfgname] = {"text_prefixes": len(verdicts), "text_reader_model_disagreements": ndis,
+                                                      "binary_prefixes": len(boffs), "binary_prefix_accepted": nacc}
     if os.path.exists(p):
         os.remove(p)
 
@@ -920,7 +1026,7 @@ def replay(rp, vsim, model):
         print("load a copy named backup_copy.colvars.state:", try_load_(vsim, d, "backup_copy.colvars.state"))
     else:
         cfgname = rp.get("config", "base")
-        sess = {"first": 0, "pre": 6, "saves": ["text", "binary"]} if cfgname == "base" else {"first": 0, "pre": 6, "saves": ["text"], "config": cfgname}
+        sess = {"first": 0, "pre": 6, "saves": ["text", "binary"]} if cfgname == "base" else {"first": 0, "pre": 6, "saves": ["text", "binary"], "config": cfgname}
         refs, chunking, rel = reference(vsim, d, sess)
         data = refs[0] if rp["format"] == "text" else refs[1]
         if "cut" in rp:
